@@ -882,8 +882,13 @@ def _lookup_rule(self, n, guard, S, row, xv):
             return          # not a range guard (e.g. the MISSING test of the fall-back)
         self.chk.instance('SP.lookup', '%s guard of the evaluation is not a two-sided range test' % g.unit.where(cond), 'undecided')
         return
-    import re as _re
-    rp = None
+    def pure_cell(r):
+        ats = list(r.atoms())
+        return len(ats) == 1 and '][' in ats[0] and r.same(Rat(Poly.atom(ats[0])))
+    if not (pure_cell(lows[0]) and pure_cell(ups[0])):
+        self.chk.instance('SP.lookup', '%s range guard %s <= x <= %s is not a comparison against table cells alone' %
+                          (g.unit.where(cond), self.short(lows[0]), self.short(ups[0])), 'undecided')
+        return
     lo_want = Rat(Poly.atom('%s[%s][0]' % (S, row)))
     m_ = [a for a in ups[0].atoms()]
     ok_lo = lows[0].same(lo_want)
